@@ -18,7 +18,11 @@ RULE = (
     "dynamic array/optional starting at a bit offset != 0 mod 8, an enum field, a signed minimum, or a type "
     "of container depth >= 2; distinct by sha1(schema text, struct, value). One case in four is a history: the case, "
     "1-3 same-named edited variants of its schema (other enum maxima, integer widths, field ids, declaration order) "
-    "with fresh values, then the original again, each schema object dropped before the next is loaded."
+    "with fresh values, then the original again, each schema object dropped before the next is loaded; one in four "
+    "ends with an in-place edit of the loaded schema object (field ids permuted, declarations re-ordered). Between the "
+    "checked calls, calls that are expected to fail are made (a value lacking a field, a wrongly typed value, a "
+    "truncated message). A second sub-run alternates two same-named revisions for 16-32 load/use/drop cycles, and a "
+    "small part of the whole search is repeated in a child interpreter started with -O (python_O_child_run)."
 )
 ASSUMPTIONS = [
     "enum field values are the enumerator's integer value",
